@@ -283,6 +283,23 @@ def rules(ctx: Ctx) -> None:
             ctx.ob("R07.5", f"sql-text-not-reflowed:{owner}", not analysed, loc(f.mod, k),
                    f"`{u(k)[:70]}` collapses line breaks in SQL text that is analysed afterwards: a `--` comment then swallows the code after it")
     ctx.ob("R07.5", "sql-text-not-reflowed:scanned", True, "sqllineage/", f"{n_scanned} functions scanned for whitespace-collapsing of SQL text", trivial=True)
+    # ---- R07.6 case folding and quote handling of the normaliser (= R16.3): quoting or re-casing an identifier must not change what it denotes
+    _common.import_rules(ctx, "C16", {"R16.3": "R07.6"})
+    # ---- R07.7 structure is decided on the parse tree, never by a regular expression over the text of a segment: text between two tokens
+    # (a comment after an opening parenthesis, a line break) is invisible in the tree and arbitrary in the text
+    n_re = 0
+    for f in prog.funcs.values():
+        if not f.mod.name.startswith("sqllineage.core.parser.sqlfluff"):
+            continue
+        for k in prog.walk_fn(f):
+            if isinstance(k, ast.Call) and isinstance(k.func, ast.Attribute) and k.func.attr in ("search", "match", "fullmatch", "findall", "finditer", "sub", "split") \
+                    and (u(k.func.value) == "re" or any(isinstance(v, ast.Call) and u(v.func) in ("re.compile", "compile") for v in prog.value_sources(f, k.func.value))):
+                textual = [a for a in k.args if any(isinstance(x, ast.Attribute) and x.attr in ("raw", "raw_upper", "raw_normalized") for x in prog.influences(f, a))]
+                if textual:
+                    n_re += 1
+                    ctx.ob("R07.7", f"no-regular-expression-over-segment-text:{f.owner}", False, loc(f.mod, k),
+                           f"`{u(k)[:70]}` matches a regular expression against the text of a segment: comments and line breaks between tokens are part of that text")
+    ctx.ob("R07.7", "no-regular-expression-over-segment-text:scanned", True, "sqllineage/core/parser/sqlfluff", f"{n_re} use(s) found", trivial=True)
 
 
 def _text_projection(e: ast.AST) -> Optional[str]:
